@@ -16,7 +16,7 @@ THEOREMS = ['Tbox.C13.' + t for t in [
     'C13_telnet_resumable', 'C13_telnet_in_bounds', 'C13_telnet_legacy_counterexample',
     'C13_split_unbalanced', 'C13_split_words', 'C13_split_quoted', 'C13_split_roundtrip',
     'C13_delete_in_handler',
-    'C13_sock_stream_conserved', 'C13_sock_close_rule',
+    'C13_sock_stream_conserved', 'C13_sock_close_rule', 'C13_sock_eintr_as_found',
     'C13_wrap_agrees_below_width', 'C13_screen_in_window_partial', 'C13_screen_in_window_counterexample',
     'C13_strsplit_single', 'C13_hexstr_width',
 ]]
@@ -720,6 +720,10 @@ def gen(rng, tier):
     yield ['mkfunc d', 'mount 0 1 ' + hx('p'), 'open 1', 'recv ' + hx('p;pwd\r\nls'), 'recv ' + hx('\r\n'), 'open 0', 'recv ' + hx('history\r\n')]
     yield ['mkfunc d f:' + hx('pwd\r\n') + ' e', 'mount 0 1 ' + hx('p'), 'xconn 4', 'xsock 4 ' + hx('p;exit\r\n') + ' 3,a', 'xsock 4 - -', 'pass', 'xrecv 4 ' + hx('pwd\r\n'), 'xdisc 4', 'pass']
     yield ['mkfunc d', 'mount 0 1 ' + hx('p'), 'sstart', 'srecv ' + hx('p\r\n'), 'srecv ' + hx('p\r\n'), 'sstop', 'pass']
+    # fix 1c1abc6: EINTR as the first readv answer is not the end of the connection (as found: read-error callback, the session
+    # deleted with the client's bytes unread); the queued line is read by the next event / the real epoll pass, the session lives on
+    yield ['xconn 4', 'xsock 4 ' + hx('help\n') + ' i', 'xsock 4 - -', 'xsock 4 ' + hx('pwd\r\n') + ' i', 'pass', 'xsock 4 - i', 'xsock 4 ' + hx('ls\r\n') + ' 2,i', 'pass']
+    yield ['xconn 6', 'xsock 6 ' + hx('pwd\r\n') + ' i', 'xsock 6 - i', 'xclose 6', 'pass', 'pass']
     # the window is narrower than prompt + line: Home, then a character (C13_screen_in_window_counterexample on the real shell)
     yield ['scrw 8', 'open 1', 'recv ' + hx('abcdefgh'), 'recv ' + hx(b'\x1b[1~'), 'recv ' + hx('X'), 'recv ' + hx('\r\n')]
     # a sub-negotiation whose payload length is on both sides of 2^16 (onRecvSub passes it to a uint16_t parameter of the
@@ -807,7 +811,7 @@ TRUSTED = ['model lean/TboxModel/C13/Model.lean is hand-written from modules/ter
            'them to Impl::onTcpReceived in an exactly sized Buffer (overreads visible to ASan); op xsock writes them into the client socket and '
            'runs ONE read event of the real BufferedFd::onReadCallback (direct call, or the real epoll pass for what stays queued) with readv(2)/'
            'read(2) interposed: sizes of the successful calls, EAGAIN, end of file, ECONNRESET, EINTR, EIO at any call index chosen by the op '
-           'file; the unconsumed rest lives in the connection\'s receive buffer for both routes. close/shutdown/setsockopt/accept/readv on the '
+           'file (EINTR is transient like EAGAIN since fix 1c1abc6: nothing delivered, the connection stays, the queue is read by the next event); the unconsumed rest lives in the connection\'s receive buffer for both routes. close/shutdown/setsockopt/accept/readv on the '
            'service\'s descriptors are recorded as M sys lines which the model predicts (deferred close of a finished connection included). '
            'The stdio service runs on the real StdioStream/BufferedFd with fds 0/1 redirected to pipes (termios calls fail harmlessly on a pipe)',
            'every byte a client receives is also fed to an independently written VT100-style emulator in the harness (grid of rows, right margin, '
